@@ -147,7 +147,8 @@ def cmpOpS : LogQL.CmpOp → Sexp
 def matcherS (m : Matcher) : Sexp := .list [sym "m", ofBytes m.label, strOpS m.op, ofBytes m.value]
 def bytesL (xs : List (List Nat)) : Sexp := .list (xs.map ofBytes)
 def pairsL (xs : List (List Nat × List Nat)) : Sexp := .list (xs.map fun p => .list [ofBytes p.1, ofBytes p.2])
-def decS (q : Rat) : Sexp := ofBytes (LogQL.ratToDec q)
+/-- exact value: the harness rounds it to float64 -/
+def decS (q : Rat) : Sexp := .list [sym "q", ofInt q.num, ofNat q.den]
 
 partial def predS : Pred → Sexp
   | .bin l isOr r => .list [sym (if isOr then "or" else "and"), predS l, predS r]
